@@ -349,3 +349,48 @@ def r7(cx):
         getattr(m, f)(cx)
     cx.obligations = ob0 + len(cx.instances[ib:])
     cx.discharged = di0 + len([i for i in cx.instances[ib:] if i["verdict"] == "holds"])
+
+
+@rule("C14", "R8", "every step can be run again after it took effect: (a) in run_cutover, once the recorded flag says the old shard is not yet deactivated, nothing can fail before the "
+      "deactivating update is issued (a precondition such as 'already pending deletion' is exactly the state a half-recorded first attempt leaves behind, and makes every resume fail); "
+      "(b) in cleanup a failed delete of an old chunk's object or catalog entry does not fail the phase (the object of a chunk whose catalog entry was not yet removed is deleted "
+      "again on resume, and a store with strict semantics answers NotFound)")
+def r8(cx):
+    ck, b = cx.need_body(SP + "run_cutover")
+    if b is not None:
+        ups = M.find_calls(b, lambda c: c == MC + "update_shard_metadata")
+        flag_edges = set()
+        for sw in M.bool_switches(b):
+            r = sw["root"]
+            if r and r[2] == "assign" and r[3]["rv"]["k"] == "use" and r[3]["rv"]["o"].get("k") in ("copy", "move") and M.pl_str(r[3]["rv"]["o"]["pl"]).endswith(".old_shard_deactivated"):
+                flag_edges.add(sw["false_edge"])   # flag false -> step still to do
+        if cx.floor("tests of old_shard_deactivated in run_cutover", len(flag_edges), 1, ck) and ups:
+            u3 = max(ups)
+            errx = {e[0] for e in M.exit_defs(b) if e[2] == "err"}
+            bad = None
+            for e in flag_edges:
+                if not b.reaches(e[1], u3) and e[1] != u3:
+                    continue
+                reach = b.reachable(e[1], removed_blocks={u3}) | {e[1]}
+                hit = sorted(errx & reach)
+                if hit:
+                    bad = hit[0]
+            if bad is None:
+                cx.passed(ck, "deactivation-step-rerunnable", [b.sp(u3)])
+            else:
+                cx.violation(ck, "deactivation-step-rerunnable", "%s: with the deactivation not yet recorded, run_cutover can fail before it re-issues the deactivating update: if the first attempt's "
+                             "update took effect but its progress write did not, every resume ends here and the split can never finish" % b.sp(bad), [b.sp(bad)])
+    kk, cb = cx.need_body(SP + "cleanup")
+    if cb is not None:
+        dels = M.find_calls(cb, lambda c: c in ("object_store::ObjectStore::delete", MC + "delete_chunk"))
+        if cx.floor("deletes in cleanup", len(dels), 2, kk):
+            errx = {e[0] for e in M.exit_defs(cb) if e[2] == "err"}
+            for i, d in enumerate(dels):
+                s, f = M.outcome_edges(cb, d)
+                fatal = [e for e in f if errx & (cb.reachable(e[1], removed_blocks=set(dels) - {d}) | {e[1]})]
+                # undiscriminated result (`?`-free, ignored) is tolerant by construction
+                if not fatal:
+                    cx.passed(kk, "cleanup-tolerates-failed-delete@%d" % i, [cb.sp(d)])
+                else:
+                    cx.violation(kk, "cleanup-tolerates-failed-delete@%d" % i, "%s: a failed delete aborts the clean-up phase: after an interruption between an old chunk's object delete and the removal "
+                                 "of its catalog entry the resumed clean-up deletes the same object again, gets NotFound from a strict store, and can never complete" % cb.sp(d), [cb.sp(d)])
